@@ -64,6 +64,13 @@ fn ln_dd(z: Cmplx) -> CDD {
     y
 }
 
+/// the admissible values of ln z: on the negative real axis with imaginary part -0.0 the argument sits on the branch
+/// cut and either limiting value (Im = -pi or +pi) is accepted (no side convention is demanded on a cut; with
+/// imaginary part +0.0 the stated range (-pi, pi] fixes +pi)
+fn cut_limits(z: Cmplx, l: CDD) -> Vec<CDD> {
+    if z.imag == 0.0 && z.imag.is_sign_negative() && z.real < 0.0 { vec![l, CDD { re: l.re, im: l.im.neg() }] } else { vec![l] }
+}
+
 // ------------------------------------------------------------------ the functions under test, by catalogue name
 fn apply1(name: &str, z: Cmplx) -> Cmplx {
     match name {
@@ -95,12 +102,17 @@ fn series_ref(name: &str, z: Cmplx) -> CDD {
 /// (error, scale) of one instance; scale = max(1, magnitudes involved)
 struct Eval { err: f64, scale: f64, range_val: Option<f64> }
 fn ev(err: f64, mags: &[f64]) -> Eval { Eval { err, scale: mags.iter().fold(1.0f64, |a, b| if b.is_finite() { a.max(*b) } else { a }), range_val: None } }
+/// purely relative scale (quotient / reciprocal definitions: a few ulps of |f(z)| everywhere, also next to poles and zeros)
+fn ev_rel(err: f64, mag: f64) -> Eval { Eval { err, scale: if mag.is_finite() && mag > 0.0 { mag } else { 1.0 }, range_val: None } }
 fn bad() -> Eval { Eval { err: f64::INFINITY, scale: 1.0, range_val: None } }
 fn part_of(v: Cmplx, part: &str) -> f64 { if part == "im" { v.imag } else { v.real } }
 
-const POW_W: [(f64, f64); 8] = [(2.0, 0.0), (-1.0, 0.0), (0.5, 0.0), (0.0, 1.0), (1.5, -2.0), (-2.5, 1.5), (3.0, 0.0), (0.0, -3.0)];
-const POWF_X: [f64; 9] = [2.0, -1.0, 0.5, 3.0, -3.0, 1.0 / 3.0, -2.5, 1.0, 0.0];
-const LOG_B: [(f64, f64); 7] = [(2.0, 0.0), (10.0, 0.0), (0.5, 0.0), (0.0, 1.0), (-3.0, 0.0), (1.0, 1.0), (0.2, -0.7)];
+const POW_W: [(f64, f64); 18] = [(2.0, 0.0), (-1.0, 0.0), (0.5, 0.0), (0.0, 1.0), (1.5, -2.0), (-2.5, 1.5), (3.0, 0.0), (0.0, -3.0),
+    (-3.0, 0.0), (-2.0, 0.0), (0.0, 0.0), (1.0, 0.0), (-0.5, 0.0), (1.5, 0.0), (-1.5, 0.0), (0.0, -1.0), (2.0, -0.0), (-0.0, 2.0)];
+const POWF_X: [f64; 14] = [2.0, -1.0, 0.5, 3.0, -3.0, 1.0 / 3.0, -2.5, 1.0, 0.0, -2.0, 1.5, -1.5, -0.5, -0.0];
+// bases: positive / negative real axis, imaginary axis, modulus exactly one, -0.0 parts, general
+const LOG_B: [(f64, f64); 16] = [(2.0, 0.0), (10.0, 0.0), (0.5, 0.0), (0.0, 1.0), (-3.0, 0.0), (1.0, 1.0), (0.2, -0.7),
+    (-1.0, 0.0), (-0.5, 0.0), (0.0, -1.0), (0.0, 2.0), (0.0, -0.25), (0.6, 0.8), (-0.8, 0.6), (-2.0, -0.0), (-0.0, 3.0)];
 
 /// all instances of relation `rel` at the point z (several for the two-argument functions)
 fn eval_rel(rel: &Value, range: &Value, z: Cmplx, rng: &mut StdRng, nrand: usize) -> Vec<Eval> {
@@ -115,9 +127,9 @@ fn eval_rel(rel: &Value, range: &Value, z: Cmplx, rng: &mut StdRng, nrand: usize
                 let mut e = if cfinite(got) && want.is_finite() { ev((got.real - want).hypot(got.imag), &[want.abs()]) } else { bad() };
                 e.range_val = Some(part_of(got, part)); out.push(e); }
             "quot" => { let got = apply1(f, z); let (a, b) = (apply1(g, z), apply1(h, z)); let want = cd(a).div(cd(b));
-                out.push(if cfinite(got) && cfinite(a) && cfinite(b) { ev(cdist(cd(got), want), &[want.abs()]) } else { bad() }); }
+                out.push(if cfinite(got) && cfinite(a) && cfinite(b) { ev_rel(cdist(cd(got), want), want.abs()) } else { bad() }); }
             "recip" => { let got = apply1(f, z); let a = apply1(g, z); let want = cone().div(cd(a));
-                out.push(if cfinite(got) && cfinite(a) { ev(cdist(cd(got), want), &[want.abs()]) } else { bad() }); }
+                out.push(if cfinite(got) && cfinite(a) { ev_rel(cdist(cd(got), want), want.abs()) } else { bad() }); }
             "rinv" => { let w = apply1(f, z); let back = apply1(g, w);
                 let mut e = if cfinite(w) && cfinite(back) { ev(cdist(cd(back), cd(z)), &[z.abs()]) } else { bad() };
                 e.range_val = Some(part_of(w, part)); out.push(e); }
@@ -129,13 +141,21 @@ fn eval_rel(rel: &Value, range: &Value, z: Cmplx, rng: &mut StdRng, nrand: usize
             "pow_def" => { let l = ln_dd(z);
                 let mut ws: Vec<(f64, f64)> = POW_W.to_vec();
                 for _ in 0..nrand { let m: f64 = rng.gen_range(0.0..3.0); let t: f64 = rng.gen_range(-PI..PI); ws.push((m * t.cos(), m * t.sin())); }
-                for (wr, wi) in ws { let w = c(wr, wi); let got = z.pow(&w); let want = exp_dd(cd(w).mul(l));
-                    out.push(if cfinite(got) { ev(cdist(cd(got), want), &[want.abs()]) } else { bad() }); } }
+                for (wr, wi) in ws { let w = c(wr, wi); let got = z.pow(&w);
+                    let mut best = bad();
+                    for lv in cut_limits(z, l) { let want = exp_dd(cd(w).mul(lv));
+                        let e = if cfinite(got) { ev(cdist(cd(got), want), &[want.abs()]) } else { bad() };
+                        if e.err / e.scale < best.err / best.scale || !best.err.is_finite() { best = e; } }
+                    out.push(best); } }
             "powf_def" => { let l = ln_dd(z);
                 let mut xs: Vec<f64> = POWF_X.to_vec();
                 for _ in 0..nrand { xs.push(rng.gen_range(-3.0..3.0)); }
-                for x in xs { let got = z.powf(x); let want = exp_dd(cscale(l, x));
-                    out.push(if cfinite(got) { ev(cdist(cd(got), want), &[want.abs()]) } else { bad() }); } }
+                for x in xs { let got = z.powf(x);
+                    let mut best = bad();
+                    for lv in cut_limits(z, l) { let want = exp_dd(cscale(lv, x));
+                        let e = if cfinite(got) { ev(cdist(cd(got), want), &[want.abs()]) } else { bad() };
+                        if e.err / e.scale < best.err / best.scale || !best.err.is_finite() { best = e; } }
+                    out.push(best); } }
             "log_def" => { let lz = z.ln();
                 let mut bs: Vec<(f64, f64)> = LOG_B.to_vec();
                 for _ in 0..nrand { let m: f64 = 10f64.powf(rng.gen_range(-3.0..1.0)); let t: f64 = rng.gen_range(-PI..PI); bs.push((m * t.cos(), m * t.sin())); }
@@ -211,11 +231,29 @@ fn points(reg: &Value, rng: &mut StdRng, nrand: usize) -> Vec<Cmplx> {
         }
         "near" => {
             let (cx, cy) = match gets(reg, "c") { "1" => (1.0, 0.0), "-1" => (-1.0, 0.0), "i" => (0.0, 1.0), _ => (0.0, -1.0) };
-            let mut rhos = vec![1e-3, 1e-6]; for _ in 0..nrand { rhos.push(10f64.powf(rng.gen_range(-6.0..-2.0))); }
+            let mut rhos = vec![1e-3, 1e-4, 1e-5, 1e-6]; for _ in 0..nrand { rhos.push(10f64.powf(rng.gen_range(-6.0..-2.0))); }
             for (k, rho) in rhos.iter().enumerate() {
                 let p = if dir % 2 == 0 { let u = ray(dir, *rho, 0.0); c(cx + u.real, cy + u.imag) }
-                        else { let a = if k < 2 { 45.0 } else { rng.gen_range(15.0..75.0) }; let u = ray(dir, *rho, a); c(cx + u.real, cy + u.imag) };
+                        else { let a = if k < 4 { 45.0 } else { rng.gen_range(15.0..75.0) }; let u = ray(dir, *rho, a); c(cx + u.real, cy + u.imag) };
                 v.push(p);
+            }
+        }
+        "pole" => {
+            // centre side * pi/2 on the real (pole_re) or imaginary (pole_im) axis; distance 10^-(3+m) in direction dir * pi/4
+            let p0 = side * FRAC_PI_2; let d0 = 10f64.powi(-(3 + m as i32));
+            let mut ds = vec![d0]; for _ in 0..nrand { ds.push(d0 * rng.gen_range(1.0..3.0)); }
+            for (k, d) in ds.iter().enumerate() {
+                let a = if k == 0 { 45.0 } else { rng.gen_range(10.0..80.0) };
+                let u = ray(dir, *d, a);
+                v.push(if gets(reg, "c") == "pole_re" { c(p0 + u.real, u.imag) } else { c(u.real, p0 + u.imag) });
+            }
+        }
+        "exact" => {
+            if gets(reg, "c") == "zero" { v.push(c(0.0, 0.0)); }
+            else {
+                // the axis ray with the other part -0.0
+                let mut rs = mod_reps(m); for _ in 0..nrand { rs.push(mod_rand(m, rng)); }
+                for r in rs { v.push(match dir { 0 => c(r, -0.0), 2 => c(-0.0, r), 4 => c(-r, -0.0), _ => c(-0.0, -r) }); }
             }
         }
         other => { eprintln!("TOOL-ERROR cfun: unknown region kind {}", other); std::process::exit(2) }
@@ -257,7 +295,7 @@ pub fn exec(case: &Value, out: &mut Out) {
                 }
             }
             out.ev(json!({"op": "rel", "cid": cid, "pos": pos, "ri": case["ri"], "gi": case["gi"], "rel": rel["id"], "relkind": rel["kind"], "cond": rel["cond"],
-                          "rangef": range["f"], "amp": rel["amp"], "npts": n, "err_units": ratio_units(worst), "fine": ratio_units(worst * 1e4), "range": range_all, "worst_z": zhex(wz)}));
+                          "rangef": range["f"], "rangeclosed": range["loClosed"].as_bool().unwrap_or(true) && range["hiClosed"].as_bool().unwrap_or(true), "amp": rel["amp"], "npts": n, "err_units": ratio_units(worst), "fine": ratio_units(worst * 1e4), "range": range_all, "worst_z": zhex(wz)}));
         }
         "sqrt_exact" | "powk" => {
             let pos = geti(case, "pos");
